@@ -23,7 +23,7 @@ def main():
     props = sys.argv[3:]
     meta = json.load(open(os.path.join(src, "meta.json")))
     if not props:
-        props = [meta["property"]]
+        props = meta.get("check_props") or [meta["property"]]
     res = {"name": name, "property": meta["property"], "at_repo_commit": sh("git -C /repo rev-parse --short HEAD").stdout.strip()}
     sh("git -C /repo worktree remove --force %s" % WT)
     r = sh("git -C /repo worktree add -q --detach %s HEAD" % WT)
